@@ -150,6 +150,10 @@ def _diagnose(item, case) -> tuple[str, str]:
     a2 = _child(alone, "987654")["results"][0]
     if a0["digest"] != a1["digest"] or a0["digest"] != a2["digest"]:
         return "hash-seed", _first_diff(a0, a1 if a0["digest"] != a1["digest"] else a2)
+    for hs in ("2", "3", "31337", "4242"):  # a coarse statistic may coincide for a few hash seeds
+        ax = _child(alone, hs)["results"][0]
+        if ax["digest"] != a0["digest"]:
+            return "hash-seed", _first_diff(a0, ax)
     t = _child({**alone, "perturb_time": case["time"]}, "0")["results"][0]
     t2 = _child({**alone, "perturb_time": {"offset": 1e7, "jump": 0.02, "back": 2.0, "seed": 1}}, "0")["results"][0]
     if a0["digest"] != t["digest"] or a0["digest"] != t2["digest"]:
